@@ -9,7 +9,7 @@ RULE = ("APIs: apis.conventional extended with a recursive tree (nested, mutuall
         "root methods, sub-package methods, both), chains of enclosing closure of depth 2 and 3 in both "
         "declaration orders (a top-level message reached only as the encloser of a nested type, whose field names a nested type of "
         "the next one), resource references (type / child_type, "
-        "message-level and file-level; also on the metadata type of an LRO, in a sub-message of it and in a message shared by the request and the metadata), a second service and a third file that vanish, LRO and paged RPCs, streaming RPCs; a "
+        "message-level and file-level; a resource type declared TWICE, by a message and by a file-level definition, reached only through a reference: message in the earlier file, both in one file, both in the earlier file and the definition again in the later one, and, once its finding is registered, definition in the earlier file; also on the metadata type of an LRO, in a sub-message of it and in a message shared by the request and the metadata), a second service and a third file that vanish, LRO and paged RPCs, streaming RPCs; a "
         "compute-style API with an extended-operation polling service, REST and gRPC+asyncio (also with a polling chain that loops); an API using its own "
         "dependency package, including dependency messages that carry resource references (type / child_type, down to depth 3) to "
         "resources whose messages are in the target package; the former DESIGN 9 no. 4 counterexample and the internal-polling one (corpus/C16, run first). Configurations: for each API subsets of RPC selectors (singletons, one "
@@ -22,7 +22,7 @@ TRUSTED = [
     "Model/Selective.v: hand-written model of API.build's third pass (allow-list traversal over addresses, pruning, internal marking, "
     "settings validation, which declarations the type templates render); an address is its proto selector",
     "harness/gv/props/c16_util.derive_graph: reads the address graph (messages with fields/nested types/enums, services, methods, LRO and "
-    "extended-operation annotations, resource table) off the input descriptors for the model; Ref: reference reachability of the oracle",
+    "extended-operation annotations, resource table in per-file insertion order) off the input descriptors for the model; Ref: reference reachability of the oracle (a reference to a resource type leads to the message carrying it whenever one exists, whatever file-level definitions and file order)",
     "harness/gv/impl/selective.py (runs API.build as gapic.cli.generate does; records the allow-list by wrapping "
     "Proto.prune_messages_for_selective_generation in the child), impl/selective_inspect.py (imports the emitted library), impl/drive.py",
     "ast/json readers of the emitted types manifests and gapic_metadata.json; apigen + DescriptorPool as validity judge",
@@ -38,6 +38,26 @@ ASSUMES = [
 SIG_NESTED = "selective.nested_enclosing_pruned"
 SIG_POLL = "selective.internal_polling_method_renamed"
 SIG_SUBPKG = "selective.subpackage_view_rejects_listed_method"
+SIG_RESDUP = "selective.resource_declared_twice_file_level_first"
+
+
+def registered(signature):
+    """The finding is listed in findings/known_findings.json (known or fixed): the inputs of its class join the run. Until
+    then they exist only as scratch/findings/C16-*.json (replayable) and the unchanged tree stays green."""
+    try:
+        listed = json.load(open(os.path.join(env.VERIF, "findings", "known_findings.json")))
+    except (OSError, ValueError):
+        return False
+    return any(f.get("property") == "C16" and f.get("signature") == signature for f in listed)
+
+
+def resdup_signature(ref, listed, missing):
+    """SIG_RESDUP when every missing type is one that only a reference to a resource type of the class (declared by a
+    file-level definition in an earlier file AND by a message in a later file) leads to; None otherwise."""
+    if not ref.twice_file_first or not missing:
+        return None
+    without = ref.reach(listed, skip_res=set(ref.twice_file_first))[1]
+    return SIG_RESDUP if not (set(missing) & without) else None
 IMPORTS = "From GV Require Import Model.Selective.\nOpen Scope list_scope."
 
 
@@ -150,6 +170,15 @@ def build_apis(ctx, n_random):
                 "first": [[U.target_package(rd) + ".Library.CheckOut"]]})
     rl, hl = U.lro_metadata_ref_api()
     out.append({"name": "lro-metadata-ref", "req": rl, "transport": "grpc", "knobs": {"lro", "lro_metadata_ref"}, "e2e": True, "invalid": False, "first": hl})
+    # a resource type declared twice (by a message and by a file-level definition), reached only by a resource reference.
+    # Arrangement b (file-level definition in the EARLIER file) is the input class of the finding SIG_RESDUP: it joins the
+    # run once the finding is registered; a (message first), c (one file), d (message + definition first, definition again) always run
+    for arr in ("a", "c", "d") + (("b",) if registered(SIG_RESDUP) else ()):
+        rt, ht = U.resource_twice_api(arr)
+        out.append({"name": f"resource-twice-{arr}", "req": rt, "transport": "grpc", "knobs": {"resource_ref", "resource_declared_twice", f"resource_twice={arr}"},
+                    "e2e": arr in ("a", "b") or ctx.tier != "quick", "invalid": False, "first": ht})
+    if not registered(SIG_RESDUP):
+        ctx.notes["resource_twice_b"] = f"not run: {SIG_RESDUP} is not listed in findings/known_findings.json yet (scratch/findings/C16-resource-declared-twice.json)"
     rp, hp = U.prefix_services_api()
     out.append({"name": "prefix-services", "req": rp, "transport": "grpc", "knobs": {"prefix_service"}, "e2e": True, "invalid": False, "first": hp})
     # dedicated APIs built on the shared random generator: the first valid candidate of a fixed rng sequence; a candidate
@@ -388,7 +417,8 @@ def schema_oracle(ctx, api, it, obs):
     if have_services != exp_services:
         ctx.violation(f"services after API.build differ: {sorted(have_services ^ exp_services)[:6]}", case)
     if exp_types - have_types:
-        ctx.violation(f"types reachable from the kept RPCs are missing after API.build: {sorted(exp_types - have_types)[:8]}", case)
+        sig = resdup_signature(ref, listed, exp_types - have_types) if listed and not sel.get("internal") else None
+        ctx.violation(f"types reachable from the kept RPCs are missing after API.build: {sorted(exp_types - have_types)[:8]}", case, sig)
     # a kept nested type only exists inside its outermost enclosing message: that message must be kept too
     orphans = sorted(t for t in have_types if t in ref.kind and ref.parent.get(t) and ref.top(t) not in have_types)
     if orphans:
@@ -667,6 +697,8 @@ def library_oracle(ctx, lb, full):
     extra = sorted(t for t in have if t in ref.target_types and t not in rplus)
     if missing:
         sig = SIG_NESTED if nested_defect and all(ref.parent.get(t) and ref.top(t) not in rtypes for t in missing) else None
+        if sig is None and listed and not internal:
+            sig = resdup_signature(ref, listed, missing)
         ctx.violation(f"types reachable from the kept RPCs are not exposed by the library: {missing[:6]}", case, sig)
     if extra:
         ctx.violation(f"types of the target package that no kept RPC reaches are still emitted: {extra[:6]}", case)
@@ -883,6 +915,23 @@ def run(ctx):
          f"set_eqb (allowed (allowlist gw {coq.slist(sel[0]['methods'])})) (allowed (allowlist wit_g (flat_map ls_methods wit_l)))"),
     ])
     ctx.oblige("example of C16_ex_enclosing_kept = the corpus API run on the implementation", not failing and not errors, "; ".join(failing + errors))
+    # the graphs of C16_ex_res_lookup_order / C16_resource_reference_keeps_message_refuted are the ones derived from
+    # c16_util.resource_twice_api: a (message first; run on the implementation above, T2) and b (file-level definition first;
+    # run on the implementation once its finding is registered, replayable from scratch/findings meanwhile)
+    shared, defs, checks = {}, [], []
+    for arr, coqg in (("a", "[rt_res; rt_lib]"), ("b", "[rt_lib; rt_res]")):
+        rq, ht = U.resource_twice_api(arr)
+        ga = U.derive_graph(rq)
+        defs.append(U.graph_defs(ga, f"grt_{arr}", shared))
+        checks.append((f"derived graph of resource_twice_api({arr!r}): resource tables of Proofs.rt_res / rt_lib",
+                       f"list_eqb (list_eqb (pair_eqb String.eqb String.eqb)) (map fi_res (filter fi_target grt_{arr})) (map fi_res {coqg})"))
+        checks.append((f"derived graph of resource_twice_api({arr!r}): allow-list of the Coq example",
+                       f"is_built (build grt_{arr} {coq.s(ga['package'])} {U.settings_term([{'version': ga['package'], 'methods': ht[0]}])}) && "
+                       f"set_eqb (allowed (allowlist grt_{arr} {coq.slist(ht[0])})) (allowed (allowlist {coqg} rt_sel)) && "
+                       f"{'negb ' if arr == 'b' else ''}(mem {coq.s(ga['package'] + '.Shelf')} (allowed (allowlist grt_{arr} {coq.slist(ht[0])})))"))
+    failing, errors, _ = coq.eval_checks("c16rt", IMPORTS + "\nFrom GV Require Import Proofs.Selective.", U.COQ_DEFS + "\n".join(shared.values()) + "\n" + "\n".join(defs), checks)
+    ctx.oblige("examples C16_ex_res_lookup_order / C16_resource_reference_keeps_message_refuted = the graphs derived from resource_twice_api a / b",
+               not failing and not errors, "; ".join(failing + errors))
 
 
 def replay(ctx, rep):
